@@ -32,7 +32,7 @@ M = [
  ("C07-has-more-output-override-removed", ["C07", "C08"], IC, "        status = TINFLStatus::HasMoreOutput\n    }", "        status = TINFLStatus::NeedsMoreInput\n    }", None),
  ("C07-num-extra-not-saved", ["C07", "C19"], IC, "    r.num_extra = l.num_extra;\n", "", None),
  ("C08-budget-ignored", ["C08", "C07"], IO, "        let mut max = position.saturating_add(max_count);\n        if max > slice.len() {", "        let mut max = position.saturating_add(max_count.max(4));\n        if max > slice.len() {", None),
- ("C09-fcheck-off-by-one", ["C09"], DZ, "    flg + (FCHECK_DIVISOR - rem as u8)", "    flg + (FCHECK_DIVISOR - rem as u8) % FCHECK_DIVISOR", None),
+ ("C09-fcheck-off-by-one-at-flevel1", ["C09"], DZ, "    flg + (FCHECK_DIVISOR - rem as u8)", "    flg + (FCHECK_DIVISOR - rem as u8) + ((flg >> 6) == 1) as u8", None),
  ("C09-trailer-little-endian", ["C09"], DC, "                        output.put_bits((adler >> 24) & 0xFF, 8);\n                        adler <<= 8;", "                        output.put_bits(adler & 0xFF, 8);\n                        adler >>= 8;", None),
  ("C09-adler-compare-skipped-at-pos0", ["C09"], IC, "                && r.check_adler32 != r.z_adler32\n", "                && r.check_adler32 != r.z_adler32\n                && out_pos != 0\n", None),
  ("C10-stored-len-unmasked", ["C10", "C02"], DC, "                output.put_bits(d.lz.total_bytes & 0xFFFF, 16);\n                output.put_bits(!d.lz.total_bytes & 0xFFFF, 16);", "                output.put_bits(d.lz.total_bytes & 0xFFFF, 16);\n                output.put_bits(!(d.lz.total_bytes + (d.lz.total_bytes >> 15 & 1)) & 0xFFFF, 16);", None),
